@@ -31,6 +31,7 @@ func init() {
 			aliasRuleFiltered(ruleC01Walk, "C01.walk", "C05.walked", 1, func(o Oblig) bool { return strings.Contains(o.Key, "below the destination") }),
 			// an out-of-tree link is refused or copied, never left out without a word
 			aliasRule(ruleC02Omit, "C02.omit", "C05.omit", 3),
+			aliasRule(ruleC02LinkTarget, "C02.linktarget", "C05.linktarget", 1),
 			aliasRuleFiltered(ruleC01Guards, "C01.guards", "C05.nametest", 1, func(o Oblig) bool {
 				return strings.Contains(o.Key, "containment") || strings.Contains(o.Key, "success return")
 			})},
